@@ -333,10 +333,27 @@ def eval_closed(case):
     vecs0 = [r.reshape(-1) for r in rhos]
     rwa = case["rwa"] != "off"
     tag = _tag(case)
-    ta = qr.TimeAxis(0.0, Nt, dt)
+    t0 = float(case.get("t0", 0.0))
+    ta = qr.TimeAxis(t0, Nt, dt)
     times = numpy.arange(Nt) * dt
     nref, order = case["nref"], case["order"]
     h = dt / nref
+
+    def _rwa_key(kind, conv_arr, lab_arr, tol, base):
+        """A time axis that does not start at zero: the library anchors the rotating frame at the
+        absolute time 0 without rotating the initial state, so the converted result is the
+        laboratory dynamics conjugated by the constant phase exp(-i Omega t0).  Exactly that
+        signature gets its own key; anything else keeps the generic one."""
+        if t0 == 0.0:
+            return base
+        ph = numpy.exp(-1j * om * t0)
+        if kind == "dm":
+            anch = ph[None, :, None] * lab_arr * numpy.conj(ph)[None, None, :]
+        else:
+            anch = ph[None, :] * lab_arr
+        if numpy.all(_fro(conv_arr - anch) <= tol):
+            return "rwa/%s/nonzero-axis-start/frame-anchored-at-absolute-time-zero" % kind
+        return base + "/nonzero-axis-start"
     nsub = (Nt - 1) * nref
 
     # reference, frame of the calculation
@@ -385,15 +402,43 @@ def eval_closed(case):
             conv = numpy.array(ev.data, copy=True)
             _validity(book, tag + "/converted", lab, conv)
             exlab = reflab["exact"][:, :, k].reshape(Nt, d, d)
-            book.check("rwa-dm", "rwa/dm/vs-exact-lab", _fro(conv - exlab), tolT,
+            book.check("rwa-dm", _rwa_key("dm", conv, exlab, tolT, "rwa/dm/vs-exact-lab"),
+                       _fro(conv - exlab), tolT,
                        "RWA density matrix converted back differs from the exact laboratory-frame "
                        "dynamics (state %s)" % lab, {"state": lab},
                        informative=b_dm[-1] <= INFORMATIVE)
+            # history: ONE propagator object survives a re-definition of the rotating-wave blocks
+            # of its Hamiltonian (set_rwa called again between two runs)
+            if t0 == 0.0 and k < 4:
+                for other in RWA_BLOCKS:
+                    if other == case["rwa"] or not (other != "one" or d == 2):
+                        continue
+                    oc = dict(case, rwa=other)
+                    if (other == "ge2" and d < 4) or not rwa_admissible(oc):
+                        continue
+                    from quantarhei.qm import ReducedDensityMatrixPropagator as _P
+                    from quantarhei.qm import ReducedDensityMatrix as _R
+                    h2 = lib_hamiltonian(m, oc)
+                    p2 = _P(ta, h2)
+                    p2.propagate(_R(data=numpy.array(rho0, dtype=complex)),
+                                 method="short-exp-%d" % order, Nref=nref)
+                    h2.set_rwa(list(RWA_BLOCKS[case["rwa"]]))
+                    e2 = p2.propagate(_R(data=numpy.array(rho0, dtype=complex)),
+                                      method="short-exp-%d" % order, Nref=nref)
+                    e2.convert_from_RWA(h2)
+                    book.check("rwa-dm", "rwa/dm/propagator-reused-after-set_rwa/vs-exact-lab",
+                               _fro(numpy.array(e2.data) - exlab), tolT,
+                               "a propagator used before and after Hamiltonian.set_rwa(%r -> %r): "
+                               "converted result differs from the exact laboratory dynamics "
+                               "(state %s)" % (RWA_BLOCKS[other], RWA_BLOCKS[case["rwa"]], lab),
+                               {"state": lab}, informative=b_dm[-1] <= INFORMATIVE)
+                    break
             evl = propagate_dm(lab_case, ta, ham_lab, rho0)
             labD = numpy.array(evl.data, copy=True)
             _validity(book, "closed/rwa=off/raw", lab, labD)
             tol2 = 2.0 * (b_dm + reflab["b"]) + RTOL
-            book.check("rwa-dm", "rwa/dm/vs-library-lab", _fro(conv - labD), tol2,
+            book.check("rwa-dm", _rwa_key("dm", conv, labD, tol2, "rwa/dm/vs-library-lab"),
+                       _fro(conv - labD), tol2,
                        "RWA density matrix converted back differs from the library's own "
                        "laboratory-frame propagation (state %s)" % lab, {"state": lab},
                        informative=(b_dm[-1] + reflab["b"][-1]) <= INFORMATIVE)
@@ -453,14 +498,16 @@ def eval_closed(case):
             psi_lab[0] = psi0
             for i in range(1, Nt):
                 psi_lab[i] = Elab_store @ psi_lab[i - 1]
-            book.check("rwa-sv", "rwa/sv/vs-exact-lab", _fro(sconv - psi_lab),
+            book.check("rwa-sv", _rwa_key("sv", sconv, psi_lab, 2.0 * b_sv + RTOL,
+                                          "rwa/sv/vs-exact-lab"), _fro(sconv - psi_lab),
                        2.0 * b_sv + RTOL,
                        "RWA state vector converted back by convert_from_RWA differs from the exact "
                        "laboratory-frame dynamics (state %s)" % lab, {"state": lab},
                        informative=b_sv[-1] <= INFORMATIVE)
             sl = propagate_sv(lab_case, ta, ham_lab, psi0)
             slab = numpy.array(sl.data, copy=True)
-            book.check("rwa-sv", "rwa/sv/vs-library-lab", _fro(sconv - slab),
+            book.check("rwa-sv", _rwa_key("sv", sconv, slab, 2.0 * (b_sv + b_sv_lab) + RTOL,
+                                          "rwa/sv/vs-library-lab"), _fro(sconv - slab),
                        2.0 * (b_sv + b_sv_lab) + RTOL,
                        "RWA state vector converted back differs from the library's own "
                        "laboratory-frame propagation (state %s)" % lab, {"state": lab},
@@ -672,9 +719,12 @@ def cases(tier):
            "ham": ["coupled", "diag", "degenerate", "cross"],
            "scale": [1.0, 0.25] if quick else [1.0, 0.25, 0.5],
            "axis": [AX_SHORT] if quick else [AX_SHORT, AX_LONG],
-           "rwa": ["off", "ge", "one", "ge2"], "order": ORDERS, "nref": NREFS}
+           "rwa": ["off", "ge", "one", "ge2"], "order": ORDERS, "nref": NREFS,
+           "t0": [0.0, 100.0] if quick else [0.0, 100.0, -37.5]}
 
     def ok_closed(c):
+        if c["t0"] != 0.0 and (c["order"] != 4 or c["nref"] != 1):
+            return False       # the axis start is crossed with the default integrator only
         if c["ham"] not in HMATS[c["dim"]]:
             return False
         if c["rwa"] == "one" and c["dim"] != 2:
